@@ -139,7 +139,17 @@ def modelGear (file : Bytes) (t : Spec.GearSet.Table) : String :=
   | .ok g =>
     let w := GearSets.writeGear g
     let d := if buildable t then (let wd := GearSets.writeGear (modelBuilt g t); if wd == file then "same" else "diff:" ++ toString wd.length) else "skip"
-    "F[" ++ showGearSets g ++ "]|W[" ++ (if w == file then "same" else "diff:" ++ toString w.length) ++ "]|D[" ++ d ++ "]"
+    -- the same value with the list cut behind its last used position, and with three extra
+    -- unused positions appended: the writer always emits the fixed 100-slot table
+    let trimmed (b : GearSets.GearSets) : GearSets.GearSets :=
+      { b with gearsets := (b.gearsets.reverse.dropWhile (·.isNone)).reverse }
+    let longer (b : GearSets.GearSets) : GearSets.GearSets :=
+      { b with gearsets := b.gearsets ++ [none, none, none] }
+    let sameOrLen (x : Bytes) : String := if x == file then "same" else "diff:" ++ toString x.length
+    let t := if buildable t then
+        sameOrLen (GearSets.writeGear (trimmed (modelBuilt g t))) ++ "," ++ sameOrLen (GearSets.writeGear (longer (modelBuilt g t)))
+      else "skip"
+    "F[" ++ showGearSets g ++ "]|W[" ++ (if w == file then "same" else "diff:" ++ toString w.length) ++ "]|D[" ++ d ++ "]|T[" ++ t ++ "]"
 
 /-- one case line in, one answer line out (see `Base/Proto.lean`) -/
 def handle (line : String) : String :=
@@ -166,7 +176,8 @@ def handle (line : String) : String :=
       let tags := if Spec.GearSet.overlapsMarker t then ["kf:gearsets.id-overlaps-marker"] else []
       let tags := if t.sets.all (·.isNone) then "triv" :: tags else tags
       answer ("gear " ++ Bytes.toHex file)
-        ("F[" ++ showTable t ++ "]|W[same]|D[" ++ (if buildable t then "same" else "skip") ++ "]") tags
+        ("F[" ++ showTable t ++ "]|W[same]|D[" ++ (if buildable t then "same" else "skip") ++ "]|T[" ++
+          (if buildable t then "same,same" else "skip") ++ "]") tags
         (some (modelGear file t))
     | none => bad
   | _ => bad
